@@ -45,3 +45,102 @@ let string_of_str (s : n list) : string =
   String.init (List.length s) (fun i -> Char.chr (int_of_n (List.nth s i) land 0xff))
 
 let ok s = "ok:" ^ hex_of_str s
+
+(* ---- value / context descriptors (see harness/world.go for the grammar) ---- *)
+exception Bad_descr of string
+
+let z_of_string (s : string) : z =
+  (* decimal, possibly negative, arbitrary size *)
+  let neg = String.length s > 0 && s.[0] = '-' in
+  let digits = if neg then String.sub s 1 (String.length s - 1) else s in
+  let ten = z_of_int 10 in
+  let acc = ref Z0 in
+  String.iter (fun c -> acc := Z.add (Z.mul !acc ten) (z_of_int (Char.code c - 48))) digits;
+  if neg then Z.opp !acc else !acc
+
+let parse_val (s : string) (pos : int ref) : val0 =
+  let len = String.length s in
+  let peek () = if !pos < len then s.[!pos] else '\000' in
+  let take_while p =
+    let st = !pos in
+    while !pos < len && p s.[!pos] do incr pos done;
+    String.sub s st (!pos - st) in
+  let is_hex c = (c >= '0' && c <= '9') || (c >= 'a' && c <= 'f') in
+  let rec value () : val0 =
+    let c = peek () in
+    incr pos;
+    match c with
+    | 'n' -> VNil
+    | 't' -> VBool true
+    | 'f' -> VBool false
+    | 'i' -> VInt (z_of_string (take_while (fun c -> c = '-' || (c >= '0' && c <= '9'))))
+    | 'd' ->
+      let txt = str_of_hex (take_while is_hex) in
+      (match parse_float_str txt with
+       | Some (Some f) -> VFloat f
+       | _ -> raise (Bad_descr "float"))
+    | 's' -> VStr (str_of_hex (take_while is_hex))
+    | 'L' -> VList (items (fun () -> value ()))
+    | 'M' -> VMap (items keyed)
+    | 'T' -> VStruct (items keyed)
+    | _ -> raise (Bad_descr (Printf.sprintf "unexpected %c at %d" c !pos))
+  and keyed () =
+    let k = str_of_hex (take_while is_hex) in
+    if peek () <> ':' then raise (Bad_descr "expected :");
+    incr pos;
+    let v = value () in
+    (k, v)
+  and items : 'a. (unit -> 'a) -> 'a list = fun item ->
+    if peek () <> '(' then raise (Bad_descr "expected (");
+    incr pos;
+    if peek () = ')' then (incr pos; [])
+    else begin
+      let acc = ref [] in
+      let continue = ref true in
+      while !continue do
+        acc := item () :: !acc;
+        (match peek () with
+         | ',' -> incr pos
+         | ')' -> incr pos; continue := false
+         | _ -> raise (Bad_descr "expected , or )"))
+      done;
+      List.rev !acc
+    end in
+  value ()
+
+(* ctx ::= key:v;key:v;...  where a value may be prefixed by '!' for a safe *Value *)
+let parse_ctx (s : string) : (n list * cval) list =
+  if s = "-" || s = "" then []
+  else begin
+    let pos = ref 0 in
+    let len = String.length s in
+    let acc = ref [] in
+    while !pos < len do
+      let st = !pos in
+      while !pos < len && s.[!pos] <> ':' do incr pos done;
+      let k = str_of_hex (String.sub s st (!pos - st)) in
+      incr pos;
+      let safe = !pos < len && s.[!pos] = '!' in
+      if safe then incr pos;
+      let v = parse_val s pos in
+      acc := (k, CV { vv = v; vsafe = safe }) :: !acc;
+      if !pos < len && s.[!pos] = ';' then incr pos
+    done;
+    List.rev !acc
+  end
+
+let parse_hexlist (s : string) : n list list =
+  if s = "-" || s = "" then [] else List.map str_of_hex (String.split_on_char ',' s)
+
+(* files ::= loader|loader ; loader ::= name:content,name:content *)
+let parse_files (s : string) : loader list =
+  if s = "-" || s = "" then []
+  else
+    List.map (fun l ->
+        if l = "" then []
+        else List.map (fun kv ->
+            match String.split_on_char ':' kv with
+            | [k; v] -> (str_of_hex k, str_of_hex v)
+            | [k] -> (str_of_hex k, [])
+            | _ -> raise (Bad_descr "file")) (String.split_on_char ',' l))
+      (String.split_on_char '|' s)
